@@ -660,7 +660,8 @@ class Execution:
         import linecache
 
         for th in threads:
-            m = re.search(r'File "([^"]+)", line (\d+) in (\w+)', th)
+            # the perturbation callback (dw/child.py, on_line) sleeps on behalf of the statement it delays: look through it
+            m = next((x for x in re.finditer(r'File "([^"]+)", line (\d+) in (\w+)', th) if not (x.group(1).endswith("dw/child.py") and x.group(3) == "on_line")), None)
             if m and not m.group(1).endswith(blocking) and m.group(3) not in ("_timer_loop", "_collect_checkpoint_batch"):
                 # a thread waiting for a lock has no frame inside threading.py: its top frame is the acquiring statement itself
                 src = linecache.getline(m.group(1), int(m.group(2)))
